@@ -3,26 +3,12 @@
 #![allow(dead_code, unused_imports, clippy::all)]
 use anyhow::Error; // cln_plugin/codec.rs refers to crate::Error
 
-#[path = "/repo/src/block_watcher.rs"]
-mod block_watcher;
-#[path = "/repo/src/cln_plugin/mod.rs"]
-mod cln_plugin;
-#[path = "/repo/src/email.rs"]
-mod email;
-#[path = "/repo/src/htlc_manager.rs"]
-mod htlc_manager;
-#[path = "/repo/src/messages.rs"]
-mod messages;
-#[path = "/repo/src/payment_provider.rs"]
-mod payment_provider;
-#[path = "/repo/src/store.rs"]
-mod store;
-#[path = "/repo/src/tlv.rs"]
-mod tlv;
+// the plugin's modules, from the repository working tree (see build.rs)
+include!(concat!(env!("OUT_DIR"), "/repo_mods.rs"));
 
+mod blk;
 mod cat;
 mod clock;
-mod blk;
 mod driver;
 mod pure;
 mod rpc;
